@@ -14,10 +14,22 @@ package keys
 //@ model hkt(PublicKeyHandler) int
 //@ model hdata(PublicKeyHandler) bytes
 
-//@ assume func (PublicKey).GetHandler
+// curve parameters / point parsing of btcec: external, no verified state touched (assumed)
+//@ assume extern func github.com/btcsuite/btcd/btcec.ParsePubKey
 //@   modifies nothing
-//@   ensures err == nil ==> result != nil && hkt(result) == pubKey.KeyType && hdata(result) == pubKey.Data
-//@   ensures err != nil ==> result == nil
+//@ assume extern func github.com/btcsuite/btcd/btcec.S256
+//@   modifies nothing
+
+// GetHandler is VERIFIED for what the code itself decides — a handler is only returned for key bytes of exactly the
+// algorithm's size (so no two different key byte strings share a handler by truncation or padding), nil-ness of the
+// result; the identification of the handler's abstract key with the bytes (array copy / curve point parsing) is the
+// one `trusts` clause.
+//@ func (PublicKey).GetHandler
+//@   modifies nothing
+//@   trusts err == nil ==> hkt(result) == pubKey.KeyType && hdata(result) == pubKey.Data
+//@   ensures err == nil ==> result != nil // C04.handler-key-size
+//@   ensures err == nil && pubKey.KeyType == ED25519 ==> len(pubKey.Data) == 32 // C04.handler-key-size
+//@   ensures err == nil && pubKey.KeyType == SECP256K1 ==> len(pubKey.Data) == 33 // C04.handler-key-size
 
 //@ interface PublicKeyHandler
 //@   method Address
